@@ -13,7 +13,7 @@ def lookup(rep):
     import collections.abc as cabc
     import beartype.claw._package.clawpkgtrie as mod
     uni = M.Universe()
-    for c in (cabc.Sized, cabc.Collection, cabc.Sequence, cabc.Iterable, list): uni.const(c)
+    for c in (cabc.Sized, cabc.Collection, cabc.Sequence, cabc.Iterable, cabc.Mapping, list, dict): uni.const(c)
     NONE = uni.const(None); SENT = uni.const(mod.PackagesTrieBlacklisted)
     CS = z3.Const('claw_state', M.Obj); B = z3.Const('package_basenames', M.Obj); L = M.len_(B)
     child = z3.Function('child', M.Obj, M.Obj, M.Obj)
@@ -25,7 +25,7 @@ def lookup(rep):
     defs = []
     for nd, root in ((ndw, wroot), (ndb, broot)):
         defs += [nd(0) == root, z3.ForAll([k], z3.Implies(z3.And(0 <= k, k < L), nd(k + 1) == z3.If(nd(k) == NONE, NONE, child(nd(k), M.item(B, k)))))]
-    pre = [wroot != NONE, broot != NONE, broot != SENT, wroot != SENT, M.inst(B, uni.const(list))]      # registry invariant: the roots are real tries
+    pre = [wroot != NONE, broot != NONE, broot != SENT, wroot != SENT, M.inst(B, uni.const(list)), M.inst(wroot, uni.const(dict)), M.inst(broot, uni.const(dict))]      # registry invariant: the roots are real tries
     y = z3.Const('y_c', M.Obj)
     truth = [z3.ForAll([y], M.truthy(z3.Select(Hc, y)) == (z3.Select(Hc, y) != NONE))]   # assumption: BeartypeConf / trie-node objects other than None are truthy where the code tests them (confs define no __bool__/__len__)
     base_axioms = uni.axioms() + defs + pre
@@ -124,7 +124,7 @@ def lookup(rep):
     rep.add('C06.get_package_conf_or_none.frame', 'proved' if not any(op == 'setattr' for s, v in outs for op, _, _ in s.effects) else 'refuted', backend='structural', where='reads only')
     # ================= is_packages_trie
     fobj, node, _ = funcmode.load('beartype/claw/_package/clawpkgtrie.py', 'is_packages_trie')
-    ex = fresh_exec('is_packages_trie', node)
+    ex = fresh_exec('is_packages_trie', node); ex.quantify_allany = True; ex.method_names = ex.method_names | {'values', 'items', 'keys'}
     outs = ex.run_function(node, St(), (), {}, fobj)
     pr = discharge_all(ex, 'is_packages_trie', axioms)
     for pi, (s, v) in enumerate(outs):
@@ -253,6 +253,10 @@ def run_history(hist):
                         if any(after[q] is not before_real[q] for q in QUERY): return f'step {step} {op}: raised BeartypeClawHookException but the registry changed: ' + ', '.join(f'{q}: {before_real[q]!r} -> {after[q]!r}' for q in QUERY if after[q] is not before_real[q])[:300]
                 d = same(view(), expect())
                 if d: return f'step {step} {op}: {d}'
+                # modules of registered packages are only checked while the path hook is installed
+                hook = claw_state.beartype_path_hook
+                if m.hooked() and (hook is None or hook not in sys.path_hooks):
+                    return f'step {step} {op}: path hook not installed although packages / beartype_all are registered: later imports go unchecked'
     except Exception as e:
         return f'unexpected {type(e).__name__}: {e}'[:300]
     finally:
@@ -302,6 +306,7 @@ def histories(rep, tier, seed):
 def classify(h, msg):
     if 'raised BeartypeClawHookException but the registry changed' in msg: return 'conflict_leaves_registry_changed'
     if 'after leaving beartyping()' in msg: return 'beartyping_exit_keeps_path_hook'
+    if 'path hook not installed' in msg: return 'path_hook_missing_while_registered'
     kinds = '+'.join(sorted({o[0] for o in h}))
     if 'exit' in kinds and ('expected' in msg): return 'beartyping_exit_does_not_restore'
     return 'view_mismatch.' + kinds
